@@ -1,7 +1,9 @@
 (* An executable check of the hypotheses of the reader refinement (proofs/ReaderRefine.v: wf_store)
    on the blocks of a decoded file.  It is evaluated by the correspondence driver on every file the
-   implementation writes; it is NOT proved sound here (it validates the hypothesis, it does not
-   replace the missing writer-side theorem W). *)
+   implementation writes (and on the files of the frozen 0.4.7 writer); proofs/StoreCheckProofs.v proves
+   it sound: when it returns true on the nodes an independent decode of the file produced, the file is
+   a well-formed store whose content is the decoded entries, so every reader theorem applies to it. *)
+From Grenad.gen Require Import Consts.
 From Grenad.model Require Import Base Varint Block Trailer Reader Spec Format.
 
 Notation node := (N * N * block)%type.     (* tree level (0 = root), frame offset, parsed block *)
@@ -11,21 +13,28 @@ Fixpoint find_node (nodes : list node) (off : N) : option node :=
   | [] => None
   | (l, o, b) :: r => if o =? off then Some (l, o, b) else find_node r off
   end.
+Definition node_block (nodes : list node) (off : N) : option block :=
+  match find_node nodes off with Some (_, _, b) => Some b | None => None end.
 
 Definition entries_of (b : block) : option (list (N * entry)) :=
   match block_entries b with Done l => Some l | _ => None end.
+Definition es_of (b : block) : list entry :=
+  match entries_of b with Some l => map snd l | None => [] end.
 
-(* the restart table is a strictly increasing subsequence of the entry starts beginning with 0 *)
-Fixpoint offsets_subseq (offs : list N) (starts : list N) : bool :=
+(* the restart table as indices into the entry starts: a strictly increasing selection *)
+Fixpoint match_offsets (offs : list N) (starts : list N) (base : nat) : option (list nat) :=
   match offs with
-  | [] => true
+  | [] => Some []
   | o :: offs' =>
-    (fix find (st : list N) : bool :=
+    (fix find (st : list N) (i : nat) : option (list nat) :=
        match st with
-       | [] => false
-       | s :: st' => if s =? o then offsets_subseq offs' st' else find st'
-       end) starts
+       | [] => None
+       | s :: st' => if s =? o then match match_offsets offs' st' (S i) with Some r => Some (i :: r) | None => None end
+                     else find st' (S i)
+       end) starts base
   end.
+Definition ridx_of (b : block) : option (list nat) :=
+  match entries_of b with Some l => match_offsets (blk_offsets b) (map fst l) 0 | None => None end.
 
 Fixpoint bytes_eq (a b : bytes) : bool :=
   match a, b with
@@ -43,53 +52,47 @@ Definition block_wf (b : block) : bool :=
     | [] => false
     | _ :: _ =>
       bytes_eq (flat_map (fun e => frame (fst e) (snd e)) es) (blk_payload b)
+      && forallb (fun e => (len (fst e) <=? U32_MAX) && (len (snd e) <=? U32_MAX)) es
       && sorted_strictb (map fst es)
-      && (match blk_offsets b with 0 :: _ => true | _ => false end)
-      && offsets_subseq (blk_offsets b) (map fst l)
+      && match ridx_of b with Some (O :: _) => true | _ => false end
     end
   end.
 
-(* an index node at tree level lvl: items are 8-byte offsets of nodes of level lvl + 1 carrying the
-   last key of that node *)
-Definition item_wf (nodes : list node) (lvl : N) (it : entry) : bool :=
-  (len (snd it) =? 8) &&
-  match find_node nodes (be_decode (snd it)) with
-  | Some (l, _, cb) =>
-    (l =? lvl + 1) &&
-    match entries_of cb with
-    | Some cl => match last_opt (map snd cl) with Some (k, _) => bytes_eqb k (fst it) | None => false end
-    | None => false
-    end
-  | None => false
+(* the level sequences, exactly as the reader refinement defines them over a store *)
+Definition coffx (it : entry) : N := be_decode (snd it).
+Definition blk_items (nodes : list node) (off : N) : list entry :=
+  match node_block nodes off with Some b => if block_wf b then es_of b else [] | None => [] end.
+Fixpoint lseq_x (nodes : list node) (root : N) (k : nat) : list entry :=
+  match k with
+  | O => blk_items nodes root
+  | S k' => flat_map (fun it => blk_items nodes (coffx it)) (lseq_x nodes root k')
   end.
+Definition offs_x (nodes : list node) (root : N) (k : nat) : list N :=
+  match k with O => [root] | S k' => map coffx (lseq_x nodes root k') end.
 
-Definition node_wf (nodes : list node) (levels : N) (nd : node) : bool :=
-  let '(lvl, _, b) := nd in
-  block_wf b &&
-  (if lvl <=? levels
-   then match entries_of b with Some l => forallb (item_wf nodes lvl) (map snd l) | None => false end
-   else lvl =? levels + 1).
+Definition stored_ok (nodes : list node) (off : N) : bool :=
+  match node_block nodes off with Some b => block_wf b | None => false end.
 
-Fixpoint nodup_offs (seen : list N) (nodes : list node) : bool :=
-  match nodes with
-  | [] => true
-  | (_, o, _) :: r => negb (existsb (N.eqb o) seen) && nodup_offs (o :: seen) r
-  end.
+(* an index level [cur] (with [offs] the offsets of the blocks of this level): items are 8-byte offsets of
+   stored blocks that are not blocks of this level, each carrying the last key of the block it points to *)
+Definition level_ok (nodes : list node) (offs : list N) (cur : list entry) : bool :=
+  forallb (fun it => (len (snd it) =? 8) && stored_ok nodes (coffx it)) cur
+  && forallb (fun it => negb (existsb (N.eqb (coffx it)) offs)) cur
+  && forallb (fun it => match last_opt (blk_items nodes (coffx it)) with
+                        | Some (k', _) => bytes_eqb k' (fst it)
+                        | None => false
+                        end) cur.
 
-(* the level sequences: entries of the nodes of each level in tree order *)
-Definition level_entries (nodes : list node) (lvl : N) : list entry :=
-  flat_map (fun nd => let '(l, _, b) := nd in
-                      if l =? lvl then match entries_of b with Some es => map snd es | None => [] end else []) nodes.
-
-Fixpoint levels_sorted (nodes : list node) (fuel : nat) (lvl : N) : bool :=
-  match fuel with
+(* [n] index levels remain, [cur] is the current level sequence: every level strictly ascending, every
+   index level well formed; the last one (n = 0) is the data level *)
+Fixpoint check_levels (nodes : list node) (n : nat) (offs : list N) (cur : list entry) : bool :=
+  sorted_strictb (map fst cur) &&
+  match n with
   | O => true
-  | S f => sorted_strictb (map fst (level_entries nodes lvl)) && levels_sorted nodes f (lvl + 1)
+  | S n' => level_ok nodes offs cur &&
+            check_levels nodes n' (map coffx cur) (flat_map (fun it => blk_items nodes (coffx it)) cur)
   end.
 
-(* [nodes] as produced by Format.decode_file (pre-order walk from the root) *)
+(* [nodes]: the (level, offset, block) triples an independent decode loaded *)
 Definition store_wf (nodes : list node) (root levels : N) : bool :=
-  (match nodes with (0, o, _) :: _ => o =? root | _ => false end)
-  && forallb (node_wf nodes levels) nodes
-  && nodup_offs [] nodes
-  && levels_sorted nodes (S (S (N.to_nat levels))) 0.
+  stored_ok nodes root && check_levels nodes (S (N.to_nat levels)) [root] (blk_items nodes root).
